@@ -6,7 +6,7 @@ from numpy import float64, ndarray
 from numpy import array
 from numpy import exp, log, mean, sqrt, argmax, diff
 from numpy import percentile
-from numpy import isfinite, savez, load
+from numpy import isfinite, savez, load, squeeze
 
 from numpy.random import default_rng
 from inference.mcmc.utilities import ChainProgressPrinter, effective_sample_size
@@ -153,8 +153,9 @@ class Parameter:
 
     def submit_accept_prob(self, p: float):
         # (a plain float: with a single-precision posterior p is a numpy.float32 and the running
-        # sums would be kept in that type - but restored as doubles by load())
-        p = float(p)
+        # sums would be kept in that type - but restored as doubles by load(); a log-density
+        # written with array arithmetic returns a one-element array for a single parameter)
+        p = float(squeeze(p))
         self.num += 1
         self.avg += p
         self.var += p * (1 - p)
